@@ -43,6 +43,30 @@ BTREE_HEADER_SIZE_SRC = ("src/tree_store/btree_base.rs",
                          r"pub\(crate\) const fn serialized_size\(\) -> usize \{\s*PageNumber::serialized_size\(\) \+ size_of::<Checksum>\(\) \+ size_of::<u64>\(\)\s*\}")
 
 
+# literal facts that are not `const` items: (coq name, file, regex with one group)
+EXTRA = [
+    ("TABLE_NORMAL", "src/tree_store/table_tree_base.rs", r"TableType::Normal => (\d+),"),
+    ("TABLE_MULTIMAP", "src/tree_store/table_tree_base.rs", r"TableType::Multimap => (\d+),"),
+    ("COLL_INLINE", "src/tree_store/multimap_btree.rs", r"\bInline => (LEAF),"),
+    ("COLL_SUBTREE", "src/tree_store/multimap_btree.rs", r"\bSubtreeV2 => (\d+),"),
+    ("ALLOC_KEY_REGION", "src/transactions.rs", r"Self::Region\(region\) => \{\s*result\[0\] = (\d+);"),
+    ("ALLOC_KEY_TRACKER", "src/transactions.rs", r"Self::RegionTracker => \{\s*result\[0\] = (\d+);"),
+    ("ALLOC_KEY_TXNID", "src/transactions.rs", r"Self::TransactionId => \{\s*result\[0\] = (\d+);"),
+    ("TYPE_CLASS_INTERNAL", "src/types.rs", r"TypeClassification::Internal => (\d+),"),
+    ("TYPE_CLASS_USER", "src/types.rs", r"TypeClassification::UserDefined => (\d+),"),
+    ("TYPE_CLASS_INTERNAL2", "src/types.rs", r"TypeClassification::Internal2 => (\d+),"),
+    ("TYPE_CLASS_INTERNAL3", "src/types.rs", r"TypeClassification::Internal3 => (\d+),"),
+]
+EXTRA_STR = [
+    ("NAME_NEXT_SAVEPOINT", "src/transactions.rs", r'NEXT_SAVEPOINT_TABLE:[^;]*?SystemTableDefinition::new\("([^"]+)"\)'),
+    ("NAME_SAVEPOINTS", "src/transactions.rs", r'\bSAVEPOINT_TABLE:[^;]*?SystemTableDefinition::new\("([^"]+)"\)'),
+    ("NAME_DATA_ALLOCATED", "src/transactions.rs", r'DATA_ALLOCATED_TABLE:[^;]*?SystemTableDefinition::new\("([^"]+)"\)'),
+    ("NAME_DATA_FREED", "src/transactions.rs", r'DATA_FREED_TABLE:[^;]*?SystemTableDefinition::new\("([^"]+)"\)'),
+    ("NAME_SYSTEM_FREED", "src/transactions.rs", r'SYSTEM_FREED_TABLE:[^;]*?SystemTableDefinition::new\("([^"]+)"\)'),
+    ("NAME_ALLOCATOR_STATE", "src/transactions.rs", r'ALLOCATOR_STATE_TABLE_NAME: &str = "([^"]+)"'),
+]
+
+
 class ParseError(Exception):
     pass
 
@@ -139,15 +163,35 @@ def main():
             else:
                 lines.append("Definition %s%s : N := %d%%N." % (prefix, w, found[w]))
     # things that are not `const` items but literal facts of the code we rely on
-    extra = []  # (coq name, file, regex with one numeric group): literal facts that are not const items
+    extra = EXTRA  # (coq name, file, regex with one group: a number or the name of a constant emitted above)
     for name, rel, rx in extra:
         try:
             text = strip_comments(open(os.path.join(REPO, rel)).read())
             m = re.search(rx, text)
             if m:
-                lines.append("Definition %s : N := %d%%N." % (name, int(m.group(1))))
+                g = m.group(1).replace("_", "")
+                if re.fullmatch(r"[0-9]+|0x[0-9a-fA-F]+", g):
+                    lines.append("Definition %s : N := %d%%N." % (name, int(g, 0)))
+                else:
+                    mm = [re.match(r"Definition %s : N := (\d+)%%N\." % re.escape(m.group(1)), l) for l in lines]
+                    mm = [x for x in mm if x]
+                    if mm:
+                        lines.append("Definition %s : N := %s%%N." % (name, mm[0].group(1)))
+                    else:
+                        errors.append("%s: %s refers to unknown constant %s" % (rel, name, m.group(1)))
             else:
                 errors.append("%s: pattern for %s not found" % (rel, name))
+        except OSError as ex:
+            errors.append("%s: %s" % (rel, ex))
+    # string literals (ASCII) the format depends on, as byte lists
+    for name, rel, rx in EXTRA_STR:
+        try:
+            text = strip_comments(open(os.path.join(REPO, rel)).read())
+            m = re.search(rx, text)
+            if m and all(ord(c) < 128 for c in m.group(1)):
+                lines.append("Definition %s : list N := [%s]%%N." % (name, "; ".join(str(ord(c)) for c in m.group(1))))
+            else:
+                errors.append("%s: string pattern for %s not found" % (rel, name))
         except OSError as ex:
             errors.append("%s: %s" % (rel, ex))
     if errors:
